@@ -8,5 +8,10 @@ CandsDef == [n \in Node |-> IF n = r1 THEN [relays |-> <<r2>>, exits |-> <<x>>]
                             ELSE [relays |-> <<r1, r2>>, exits |-> <<x>>]]
 FirstHopsDef == [n \in Node |-> <<r1>>]
 RankDef == [n \in Node |-> IF n = o THEN 1 ELSE IF n = o2 THEN 2 ELSE IF n = r1 THEN 3 ELSE IF n = r2 THEN 4 ELSE 5]
+\* two exits (x and r2): a retry of the last hop has somewhere else to go
+FlagsTwo == [n \in Node |-> IF n \in {x, r2} THEN {"relay", "exit"} ELSE {"relay"}]
+CandsTwo == [n \in Node |-> [relays |-> <<>>, exits |-> <<x, r2>>]]
+\* reachability probe (expected to be VIOLATED - non-vacuity): a circuit whose second hop is the retry candidate r2
+ProbeRetriedHop == \A n \in Node : \A c \in DOMAIN circ[n] : Len(circ[n][c].hops) < 2 \/ circ[n][c].hops[2].peer # r2
 CandsSmall == [n \in Node |-> [relays |-> <<>>, exits |-> <<x>>]]
 =============================================================================
